@@ -1,5 +1,5 @@
 (* JsMin/Properties.v — property theorems of C33 only; proofs live in Proofs.v. *)
-From JsMin Require Import Model Proofs.
+From JsMin Require Import Model Proofs Relex.
 From Coq Require Import String.
 Open Scope N_scope.
 
@@ -90,6 +90,28 @@ Proof.
   intros t1 t2 H1 H2 Hp He. rewrite forallb_forall in H. specialize (H t1 H1).
   rewrite forallb_forall in H. specialize (H t2 H2). rewrite Hp, He in H. exact H.
 Qed.
+
+(* whole token lists: for every list of identifier, number and operator tokens (any values, any length, blanks anywhere)
+   that is well formed ([wf]: each token has the shape the lexer gives that kind, '/' is not in regex position, and the byte
+   that follows it in the emitted text cannot extend it - [boundary_ok], a condition on the token and its successor only),
+   the emitted text lexes back to exactly these tokens.  Strings, templates, regex literals and comments are outside [wf]. *)
+Theorem C33_emit_relex_lists :
+  forall ts, wf [] ts = true -> strip_ws (tokenize (emit true ts)) = strip_ws ts.
+Proof. exact relex_lists. Qed.
+
+(* the locality property of the model lexer the induction rests on: a well-shaped token followed by any text whose first
+   byte passes [boundary_ok] is scanned as exactly that token, whatever comes later and whatever was lexed before (up to
+   regex context) *)
+Theorem C33_lexer_locality :
+  forall t rout rest, tok_shape t (is_regex_ctx rout) = true -> boundary_ok t (hd_opt rest) = true ->
+    exists b a, snd t = b :: a /\ lex_one b (a ++ rest) rout = (t, rest, false).
+Proof. exact lex_tok_app. Qed.
+
+Example C33_relex_lists_nonvacuous :
+  let ts := tokenize (s2l "function f(a1,b){let x = a1 + +b - 1.5e3/2 ; return x>>>=2, x!==b ? x-- : b++ +a1 .5}") in
+  wf [] ts = true /\ List.length (strip_ws ts) = 39%nat /\
+  emit true ts = s2l "function f(a1,b){let x=a1+ +b-1.5e3/2;return x>>>=2,x!==b?x--:b++ +a1 .5}".
+Proof. vm_compute. repeat split; reflexivity. Qed.
 
 (* ... and it does not hold for all producible pairs: the lexer's own view of "c ? .5" is not preserved
    (valid JavaScript nevertheless), nor "0xe +1" *)
